@@ -5,3 +5,28 @@ CLAIMS["C10"] = ("static table analysis of all AVP class definitions + CFG must-
  "tables, must-define and width of the data field on every CFG path of each type constructor and each parser_data "
  "implementation, and agreement with the published dictionary. Necessary conditions of the property over all classes at once; "
  "value-level domain checks inside an accepted Python type are not decided.", "DESIGN.md section 4, C10")
+CLAIMS["C09"] = ("static table analysis of all 50 typed command classes + decision-table enumeration of DiameterMessage._load and set_flag_by_app_id",
+ "All DiameterRequest/DiameterAnswer subclasses under bromelia/lib are folded and cross-checked (kind, 3-byte command code, 4-byte "
+ "application id, request/answer agreement, mandatory keys are parameters, misspelt keys, locals() handed to _load unchanged, "
+ "defaults accepted by the AVP type they feed, frozen published argument->AVP-class pairs); _load's branch structure is enumerated "
+ "over the 8 combinations of (mandatory, optional, None) and the flag rule over (default app, kind). Necessary conditions over all "
+ "classes; per-value construction and the round trip are not decided.", "DESIGN.md section 4, C09")
+CLAIMS["C17"] = ("interval-set normalisation of the predicates' comparison atoms (abstract interpretation over integer intervals)",
+ "Each integer family predicate is reduced to a union of integer intervals over [0,2^32) and compared with [1000k+1,1000k+999] "
+ "(complete for every 32-bit code, not sampled); the five sets are pairwise disjoint; each answer-object predicate is a delegation to "
+ "its verified integer predicate on the big-endian Result-Code, an interval test, or is refuted (byte-mask idiom) with a computed "
+ "counter-example. This decides the property for the predicates' current source up to the 4-octet width of Result-Code (C10).",
+ "DESIGN.md section 4, C17")
+CLAIMS["C18"] = ("CFG return analysis (no implicit None) + structural encoder/decoder symmetry rules + sibling comparison",
+ "No path of either TBCD function falls off the end; both loops step by the pair width, swap a full pair, and agree on filler constant "
+ "and positions; MsisdnAVP/StnSrAVP.encode are identical and feed bytes.fromhex(encode_to_tbcd(.)) to the type initialiser. Necessary "
+ "conditions; the round trip as an equation over all strings is not decided.", "DESIGN.md section 4, C18")
+CLAIMS["C19"] = ("def-use flow table of the 12 configuration keys, dominator checks of each validation, reaching-definition (loop-carried) analysis on the CFG",
+ "Every key flows unchanged into exactly its field of the Connection description; each validation dominates its store and raises the "
+ "library's configuration error; no use-after-rebind; every per-entry value of the YAML converter is defined inside its iteration; "
+ "Config defaults only TRANSPORT_TYPE. Necessary conditions; odd-but-parseable values are not decided.", "DESIGN.md section 4, C19")
+CLAIMS["C20"] = ("interval partition of the bit index over the if/elif chains + byte-index/mask/sibling rules; folded family and epoch tables",
+ "The branch conditions of is_bit_set/set_bit/unset_bit are normalised to interval sets and must partition [0,32) into byte-aligned "
+ "groups, each touching byte 3-j with mask 2**(bit%8) and rebuilding the word with the other bytes in place; out-of-range and "
+ "redundant operations are rejected first; the three siblings agree. Address family constants/offsets and the Time epoch/scale are "
+ "folded. Complete over bit indices (finite abstraction); value-level behaviour of ipaddress/datetime is trusted.", "DESIGN.md section 4, C20")
